@@ -5,6 +5,7 @@ import LZ4V.Judge.Frame
 import LZ4V.Judge.Stream
 import LZ4V.Judge.Cli
 import LZ4V.Judge.WR
+import LZ4V.Judge.Sparse
 import Std.Data.HashMap
 /-!
 `lz4vmodel judge <casefile> <faildir>` : walk the case records written by a harness, run the specification / model
@@ -24,6 +25,7 @@ def dispatch (blobs : Std.HashMap Nat ByteArray) (r : Rec) : Verdict :=
   | 7 => judgeCliArchive r
   | 8 => judgeCliDecode r
   | 9 => (let x := judgeWR r; { fails := x.1, tags := x.2 })
+  | 10 => (let x := judgeSparse r; { fails := x.1, tags := x.2 })
   | 100 => {}
   | _ => { fails := [("unknown_op", s!"op={r.op}")] }
 
